@@ -109,7 +109,7 @@ theorem ri_withPUT {cfg : Config} {db : DB R} {mv : Nat} {c : ConsumerReq} (h : 
 /-- the three outcomes of `ensure_consumer` -/
 inductive EnsureCase (cfg : Config) (db : DB R) (mv : Nat) (c : ConsumerReq) :
     DB R → Except Resp (ConsRow × Bool × ReqAttr) → Prop
-  | rejected (r : Resp) : EnsureCase cfg db mv c (withPU cfg db c) (.error r)
+  | rejected : EnsureCase cfg db mv c (withPU cfg db c) (.error (r409 .concurrentUpdate))
   | found (cons : ConsRow) (h : db.consByUuid c.uuid = some cons) :
       EnsureCase cfg db mv c (withPUT cfg db mv c) (.ok (cons, false, reqAttr cfg mv c))
   | created (h : db.consByUuid c.uuid = none) (hg : ¬ (mv ≥ 28 ∧ c.gen.isSome)) :
@@ -130,12 +130,12 @@ theorem ensureConsumer_cases {cfg : Config} {db : DB R} {mv : Nat} {c : Consumer
   | some cons =>
     dsimp only
     split
-    · exact .rejected _
+    · exact .rejected
     · exact .found cons hc
   | none =>
     dsimp only
     split
-    · exact .rejected _
+    · exact .rejected
     · next hg => exact .created hc (by simpa using hg)
 
 /-- the state with a freshly created consumer row -/
@@ -189,7 +189,7 @@ theorem uniqC_ensureConsumer {cfg : Config} {db : DB R} {mv : Nat} {c : Consumer
   generalize hE : ensureConsumer cfg db mv c = p
   obtain ⟨d, res⟩ := p
   cases ensureConsumer_cases hE with
-  | rejected r => exact uniqC_withPU h
+  | rejected => exact uniqC_withPU h
   | found cons hc => exact uniqC_withPUT h
   | created hn _ => exact uniqC_newCons h hn
 
@@ -198,7 +198,7 @@ theorem ri_ensureConsumer {cfg : Config} {db : DB R} {mv : Nat} {c : ConsumerReq
   generalize hE : ensureConsumer cfg db mv c = p
   obtain ⟨d, res⟩ := p
   cases ensureConsumer_cases hE with
-  | rejected r => exact ri_withPU h
+  | rejected => exact ri_withPU h
   | found cons hc => exact ri_withPUT h
   | created hn _ => exact ri_newCons h
 
@@ -378,7 +378,7 @@ theorem Insp.step {cfg : Config} {mv : Nat} {db0 db db1 : DB R} {acc : List (Con
     | .ok (cons, isNew, attr) =>
         Insp cfg mv db0 db1 (acc ++ [(c, cons, attr)]) (if isNew then created ++ [cons.id] else created) := by
   cases ensureConsumer_cases hE with
-  | rejected r =>
+  | rejected =>
     exact { h with
       uniq := uniqC_withPU h.uniq, ri := ri_withPU h.ri
       acc := fun t ht => by
